@@ -237,6 +237,35 @@ TARGETED = [['B1', 'D', 'R1', 'R2'], ['R1', 'D', 'R1', 'I1', 'R2'], ['C1', 'D', 
             ['R1', 'D', 'RS', 'R1', 'RC'], ['B1', 'D', 'C1', 'R1'], ['B1', 'F1', 'D', 'R1', 'R2'], ['I1', 'D', 'I1', 'X1', 'R2']]
 
 
+_PRISTINE = {}
+
+
+def pristine(kind, label, annotated):
+    """What the access `label` returns on a freshly compiled copy of the classes of `kind`
+    after `annotated` re-decorations and nothing else."""
+    import sigtools
+    key = (kind, label, annotated)
+    if key not in _PRISTINE:
+        try:
+            ns = sigs.compile_module(KINDS[kind], tag='vhistp')
+            A = ns['A']
+            for k in range(annotated):
+                from sigtools import modifiers
+                modifiers.annotate(a='again%d' % k)(A.__dict__['m'])
+            if label == 'instance':
+                r = render_sig(sigtools.signature(A().m))
+            elif label == 'instance-inspect':
+                r = render_sig(inspect.signature(A().m))
+            elif label == 'class':
+                r = render_sig(sigtools.signature(A.m))
+            else:
+                r = None
+        except Exception:
+            r = None
+        _PRISTINE[key] = r
+    return _PRISTINE[key]
+
+
 def render_sig(sig):
     return str(sig)
 
@@ -275,6 +304,14 @@ def run_history(ctx, kind, history):
                   dict(w, access=label, first=first[key], now=r), rp)
         else:
             first[key] = r
+        # ... and the answer a pristine copy of the same classes gives when this access is the
+        # very first thing that happens to it (no earlier retrieval, binding, call or fault)
+        want = pristine(kind, label, annotated)
+        if want is not None:
+            ctx.count('C18.compared_with_pristine')
+            if want != r:
+                V(ctx, 'retrieval-differs-from-pristine', 'a retrieval inside a history gives another result than the same access on a pristine copy of the classes',
+                  dict(w, access=label, pristine=want, now=r), rp)
 
     for step_no, op in enumerate(history):
         try:
@@ -365,6 +402,7 @@ def run_history(ctx, kind, history):
                     if out[0] == 'raise':
                         ctx.count('C18.faulted_retrievals_raised')
                 out = opf = target_inst = None
+                INJ.uninstall()
             elif op == 'D':
                 from sigtools import modifiers
                 if kind.startswith('modifier') or kind.startswith('posoargs'):
